@@ -225,6 +225,32 @@ func main() {
 		cases = append(cases, Case{ID: len(cases), Store: "", HRes: nil, N: 3, Sched: sched, Wasm: hex.EncodeToString(bin), Engines: map[string]EngObs{}})
 		mods, bins = append(mods, ms), append(bins, bin)
 	}
+	// fixed case 2: a function reference created AT RUN TIME by the ref.func instruction (not by an initialiser), stored
+	// with table.set and called indirectly; also table.grow/table.size of the private table: all per-instance state
+	{
+		mm := &c.Mod{}
+		mm.Types = [][]byte{c.FT(nil, c.B(c.I32))}
+		mm.Funcs = [][]byte{c.U32(0), c.U32(0), c.U32(0)}
+		mm.Tables = [][]byte{c.Cat(c.B(c.FuncRef, 1), c.U32(2), c.U32(8))}
+		mm.Mems = [][]byte{c.MemLimits(1, nil)}
+		mm.Globals = [][]byte{c.Cat(c.B(c.I32, 1), c.I32Const(0), c.B(0x0b))}
+		mm.Exports = [][]byte{c.Export("f4", 0, 0), c.Export("f5", 0, 1), c.Export("f6", 0, 2), c.Export("mem", 2, 0), c.Export("g0", 3, 0)}
+		mm.Elems = [][]byte{c.Cat(c.U32(3), c.B(0x00), c.Vec(c.U32(0)))} // declarative: function 0 may be named by ref.func
+		mm.Codes = [][]byte{
+			// f4 = bump: counter++; mem[0] = counter; return counter
+			c.Code(nil, c.GlobalGet(0), c.I32Const(1), c.B(0x6a), c.GlobalSet(0), c.I32Const(0), c.GlobalGet(0), c.B(0x36, 2, 0), c.GlobalGet(0)),
+			// f5 = run: table[1] = ref.func bump; call_indirect table[1]
+			c.Code(nil, c.I32Const(1), c.B(0xd2, 0), c.B(0x26, 0), c.I32Const(1), c.B(0x11, 0, 0)),
+			// f6 = table.grow by one null entry; return table.size
+			c.Code(nil, c.B(0xd0, c.FuncRef), c.I32Const(1), c.B(0xfc, 15, 0), c.B(0x1a), c.B(0xfc, 16, 0)),
+		}
+		bin := mm.Bytes()
+		ms := &c.ModSpec{HasMem: true, Globals: []byte{c.I32}, GInit: []uint64{0}}
+		ms.Funcs = []*c.FuncSpec{{Sig: c.Sig{R: []byte{c.I32}}}, {Sig: c.Sig{R: []byte{c.I32}}}, {Sig: c.Sig{R: []byte{c.I32}}}}
+		sched := [][]uint64{{0, 5}, {0, 5}, {1, 5}, {1, 6}, {2, 6}, {1, 5}, {0, 5}, {2, 5}, {2, 6}, {3, 5}, {0, 6}, {3, 5}}
+		cases = append(cases, Case{ID: len(cases), Store: "", HRes: nil, N: 4, Sched: sched, Wasm: hex.EncodeToString(bin), Engines: map[string]EngObs{}})
+		mods, bins = append(mods, ms), append(bins, bin)
+	}
 	var wg sync.WaitGroup
 	var mu sync.Mutex
 	sem := make(chan struct{}, 12)
